@@ -126,24 +126,31 @@ def sub_cases(rng, c, r):
     if key not in cm["exps"]:
         return out
     anchor = cm["exps"][key]
-    src = d.exps[key][1]
-    pats = [src]
+    try:
+        src = ast.unparse(cc.node_at(r.sroot, anchor).astNode)     # what the first match actually bound
+        ast.parse(src)
+    except Exception:
+        return out
+    # (pattern, what C11 expects of it inside the subtree: None | {} | {placeholder: identifier})
+    pats = [(src, {})]
     try:
         sub_tree = ast.parse(src)
         dd = cc.derive(rng, src, sub_tree, whole=True, max_steps=2)
-        if dd is not None:
-            pats.append(dd.pattern)
+        # a _x_ the sub-pattern introduces must not be one the parent already uses for something else
+        if dd is not None and not (set(dd.vars) & set(cc.pattern_names(r.ptree))):
+            pats.append((dd.pattern, dict(dd.vars)))
     except SyntaxError:
         pass
     for k in sorted(d.vars)[:1]:
-        pats.append(k)                       # a placeholder the parent has already bound
-        pats.append("%s + ___" % k)
-    pats.append("_zz_")
-    for pat in pats:
+        pats.append((k, None))                       # a placeholder the parent has already bound
+        pats.append(("%s + ___" % k, None))
+    pats.append(("_zz_", None))
+    for pat, expect in pats:
         for prev in (False, True):
             out.append(({"pattern": pat, "code": c["code"], "origin": c["origin"].split(":")[0] + ":sub",
                          "setup": c["setup"], "api": "sub", "spelling": c.get("spelling", "plain"),
-                         "use_previous": prev, "parent_pattern": c["pattern"], "parent_key": key},
+                         "use_previous": prev, "parent_pattern": c["pattern"], "parent_key": key,
+                         "sub_expect": expect},
                         dict(api="sub", anchor=anchor, parent=parent, key=key, use_previous=prev)))
     return out
 
@@ -395,7 +402,7 @@ def search_c11(rng, tier, broken, corr):
             "rule": "oracle = a pattern derived from (a statement of) the program by wildcard / __expr__ replacement, "
                     "consistent _var_ renaming and sibling dropping must give >= 1 match, one of which binds every "
                     "placeholder to what it replaced; non-trivial = derivation with at least one step",
-            "samples": [], "steps": {}}
+            "samples": [], "steps": {}, "skips": STATE.get("skips", {})}
     failures = []
     bad = []
     for c, r in runs:
@@ -413,6 +420,28 @@ def search_c11(rng, tier, broken, corr):
         elif len(info["samples"]) < 3 and d.steps:
             info["samples"].append({"pattern": d.pattern, "code": d.code[:120], "steps": d.steps,
                                     "vars": d.vars, "exps": {k: v[1] for k, v in d.exps.items()}})
+    # matches within matches: the bound expression (generalised) must be found inside its own subtree
+    for c, r in runs:
+        expect = c.get("sub_expect")
+        if expect is None:
+            continue
+        info["evaluations"] += 1
+        info["sub_patterns"] = info.get("sub_patterns", 0) + 1
+        why = None
+        if r.exc is not None:
+            why = "raises " + r.exc
+        elif not r.matches:
+            why = "no match"
+        elif expect and not any(all(k in [kk for (_, kk) in m["binds"]] and
+                                    all(i == x for (t, kk), lst in m["binds"].items() if kk == k for (i, _) in lst)
+                                    for k, x in expect.items()) for m in r.matches):
+            why = "no match with the expected bindings"
+        if why:
+            sig = {"oracle": "sub-pattern", "why": why.split(" ")[0], "use_previous": bool(c.get("use_previous"))}
+            failures.append(Failure(sig, "CaitNode.find_matches(%r, use_previous=%s) inside the subtree bound to %s of a match "
+                                         "of %r: %s" % (c["pattern"], c.get("use_previous"), c["parent_key"],
+                                                        c["parent_pattern"], why),
+                                    {k: c[k] for k in CASE_KEYS if k in c}))
     seen = set()
     for c, d, why in bad:
         kinds = sorted({s.split(":")[0] for s in d.steps})
@@ -427,7 +456,13 @@ def search_c11(rng, tier, broken, corr):
                                  "exps": {k: v[1] for k, v in d.exps.items()}, "why": why}))
         if len(failures) >= 5:
             break
-    return failures, info
+    uniq, seen2 = [], set()
+    for f in failures:
+        k = json.dumps(f.signature, sort_keys=True)
+        if k not in seen2:
+            seen2.add(k)
+            uniq.append(f)
+    return uniq[:5], info
 
 
 # --------------------------------------------------------------------------
